@@ -20,6 +20,8 @@ pub mod c03;
 #[cfg(kani)]
 pub mod c06;
 #[cfg(kani)]
+pub mod c07;
+#[cfg(kani)]
 pub mod c08;
 #[cfg(kani)]
 pub mod c12;
@@ -29,6 +31,8 @@ pub mod c10;
 pub mod c11;
 #[cfg(kani)]
 pub mod c14;
+#[cfg(kani)]
+pub mod c15;
 #[cfg(kani)]
 pub mod c16;
 #[cfg(kani)]
